@@ -42,8 +42,8 @@ def gen_case(run_seed, tier):
     wl = stream(run_seed, "workload")
     ne, np_, nc = sz.randint(1, 3), sz.randint(0, 3), sz.randint(0, 2)
     length = sz.randint(5, 60 if tier == "thorough" else 40)
-    kinds = ["add", "ins", "rm", "rep", "unwrap", "group", "rmid", "reg", "badadd", "copyreg", "badrep"]
-    w = {"add": 6, "ins": 6, "rm": 3, "rep": 2, "unwrap": 1, "group": 1, "rmid": 1, "reg": 0.5, "badadd": 0.4, "copyreg": 0.4, "badrep": 0.5}
+    kinds = ["add", "ins", "rm", "rep", "unwrap", "group", "rmid", "reg", "badadd", "copyreg", "badrep", "query"]
+    w = {"add": 6, "ins": 6, "rm": 3, "rep": 2, "unwrap": 1, "group": 1, "rmid": 1, "reg": 0.5, "badadd": 0.4, "copyreg": 0.4, "badrep": 0.5, "query": 0.5}
     # swarm: zero some weights
     for k in kinds:
         if sz.random() < 0.15:
@@ -73,6 +73,8 @@ def gen_case(run_seed, tier):
             hist.append(["badadd", wl.choice("ep"), wl.randrange(3), wl.randrange(7)])
         elif k == "badrep":
             hist.append(["badrep", wl.randrange(1000), wl.randrange(3), wl.randrange(1000)])
+        elif k == "query":
+            hist.append(["query", wl.randrange(1000), wl.randrange(3)])
         elif k == "copyreg":
             hist.append(["copyreg", wl.choice("epc"), wl.randrange(2)])
         else:
@@ -512,6 +514,25 @@ def run_case(case):
                 else:
                     ctx.violate("J6_register_gap_accepted", step, f"add of {spec} was accepted although register {t}{m.cnt[t]} does not exist", {"after": "badadd"})
                     break
+            elif k == "query":
+                # the caller asks the label index for nodes and then uses the answers as its own lists (empties them,
+                # appends to them): the answers are the caller's, the index must still agree with the graph
+                labels = sorted(str(x) for x in circ.node_dict)
+                if not labels:
+                    continue
+                lab = labels[st[1] % len(labels)]
+                answers = [circ.get_node_by_labels([lab]), circ.get_node_exclude_labels([lab])]
+                if st[2] == 1 and len(labels) > 1:
+                    answers.append(circ.get_node_by_labels([lab, labels[(st[1] + 1) % len(labels)]]))
+                for ans in answers:
+                    if isinstance(ans, list):
+                        if st[2] == 2:
+                            ans.append(10**6)
+                        else:
+                            ans.clear()
+                ctx.fault("object_reuse")
+                ctx.probe("label_query_answers_edited_by_caller")
+                ctx.log(step, "query", lab, st[2])
             elif k == "badrep":
                 # a replacement that acts on other registers than the node it replaces (indices exchanged between control
                 # and target, roles exchanged, or a neighbouring register): refused, or - if the library takes it - the
